@@ -71,3 +71,8 @@ From PFL Require Import Model.PyRegex Proofs.PyRegexSem.
 Theorem pyre_accepts (universe : list N) (c : nat) (p : pyre) (w : list N) :
   accepts (re_enfa_at c (py_translate universe p)) w = true <-> pyden universe p w.
 Proof. rewrite re_enfa_accepts. apply py_translate_sem. Qed.
+
+(* to_regex().to_epsilon_nfa() with pyformlang's own construction closes the round trip *)
+Theorem to_regex_round_trip {Q : Type} `{EqDec Q} (c : nat) (A : enfa Q) (w : list N) :
+  wf A -> (Lang (re_enfa_at c (to_regex A)) w <-> Lang A w).
+Proof. intros W. rewrite re_enfa_at_lang. symmetry. now apply to_regex_correct. Qed.
